@@ -87,6 +87,10 @@ def main():
         only = argv[argv.index("--only") + 1]
         args.remove(only)
     with_suite = "--suite" in argv
+    vseed = "1"
+    if "--seed" in argv:
+        vseed = argv[argv.index("--seed") + 1]
+        args.remove(vseed)
     seeded = "--seeded" in argv
     respath = os.path.join(HERE, "mutants", "RESULTS.json")
     results = json.load(open(respath)) if os.path.exists(respath) else {}
@@ -139,8 +143,12 @@ def main():
             suite = None
             if with_suite:
                 suite = suite_ok()
-            rc, dt, sigs, tail = run_check(pid, tier)
+            rc, dt, sigs, tail = run_check(pid, tier, vseed)
             killed = rc == 1
+            if vseed != "1":
+                print("%-4s %-40s %s rc=%d %.1fs seed=%s %s" % (pid, name, "KILLED  " if killed else "SURVIVED", rc, dt, vseed, "; ".join(sigs[:2])[:140]))
+                bad += 0 if killed else 1
+                continue
             results["%s/%s" % (pid, name)] = {"killed": killed, "rc": rc, "seconds": round(dt, 1), "signatures": sigs[:6],
                                               "tier": tier, "suite_passes": suite[0] if suite else None}
             print("%-4s %-40s %s rc=%d %.1fs %s %s" % (pid, name, "KILLED  " if killed else "SURVIVED", rc, dt,
@@ -153,6 +161,15 @@ def main():
         shutil.rmtree(SCRATCH + "_ev", ignore_errors=True)
         shutil.rmtree(SCRATCH + "_fi", ignore_errors=True)
     os.makedirs(os.path.dirname(respath), exist_ok=True)
+    # drop records of specs / seeds that no longer exist
+    live = set()
+    for fn in os.listdir(os.path.join(HERE, "mutants", "specs")):
+        live.update("%s/%s" % (fn[:-5], sp["name"]) for sp in json.load(open(os.path.join(HERE, "mutants", "specs", fn))))
+    for d in os.listdir(os.path.join(HERE, "seeded")):
+        mp = os.path.join(HERE, "seeded", d, "meta.json")
+        if os.path.exists(mp):
+            live.add("%s/seeded/%s" % (json.load(open(mp))["property"], d))
+    results = {k: v for k, v in results.items() if k in live}
     json.dump(results, open(respath, "w"), indent=1, sort_keys=True)
     return 1 if bad else 0
 
